@@ -473,6 +473,8 @@ mod v_iface_neighbor {
         stale_key: bool,
         rate_limited: bool,
         others_expired: bool,
+        resolved: bool,
+        dst_cached_offlink: bool,
     }
 
     /// One step from an arbitrary state: `lookup_hardware_addr(dst)` (do_a) and / or `dispatch_ip(UDP datagram to dst)`
@@ -611,10 +613,12 @@ mod v_iface_neighbor {
             stale_key: nh.is_some() && m_key_index(&m, &nh.unwrap_or(dst)).is_some(),
             rate_limited: nh.is_some() && m_lookup(&m_pre, &nh.unwrap_or(dst), now) == NeighborAnswer::RateLimited,
             others_expired: m.e[0].exp <= now && m.e[2].exp <= now,
+            resolved: nh.is_some() && m_lookup(&m_pre, &nh.unwrap_or(dst), now).found(),
+            dst_cached_offlink: !on_link(&dst) && m_lookup(&m_pre, &dst, now).found(),
         }
     }
 
-    // @harness props=C16 cfg=KI4,KI6 tier=q to=900 mem=16 unwind=KI4:8,KI6:18 opts=nomem covers=6 funcs=InterfaceInner::lookup_hardware_addr;InterfaceInner::route;InterfaceInner::has_neighbor;InterfaceInner::in_same_network;InterfaceInner::dispatch_ethernet;route::Routes::lookup;neighbor::Cache::lookup;neighbor::Cache::limit_rate bounds=Ethernet_interface_192.168.1.1/24_(IPv6:_fe80::1/64_+_2001:db8::1/64);_neighbor_cache_full:_3_entries_with_fixed_keys_(2_on-link_hosts,_1_off-link),_any_hardware_addresses,_any_expiries_(expired_=_absent_for_lookups),_any_silent_until;_2_routes_(any_network,_any_unicast_gateway,_any_expiry;_expired_=_absent;_prefix_length_any_0..=32_for_IPv4,_fixed_/0_and_/48_for_IPv6);_any_unicast_destination_(all_address_bits_symbolic);_any_instant
+    // @harness props=C16 cfg=KI4 tier=q to=900 mem=8 unwind=8 opts=nomem covers=8 funcs=InterfaceInner::lookup_hardware_addr;InterfaceInner::route;InterfaceInner::has_neighbor;InterfaceInner::in_same_network;InterfaceInner::dispatch_ethernet;route::Routes::lookup;neighbor::Cache::lookup;neighbor::Cache::limit_rate bounds=Ethernet_interface_192.168.1.1/24_(IPv6:_fe80::1/64_+_2001:db8::1/64);_neighbor_cache_full:_3_entries_with_fixed_keys_(2_on-link_hosts,_1_off-link),_any_hardware_addresses,_any_expiries_(expired_=_absent_for_lookups),_any_silent_until;_2_routes_(any_network,_any_unicast_gateway,_any_expiry;_expired_=_absent;_prefix_length_any_0..=32_for_IPv4,_fixed_/0_and_/48_for_IPv6);_any_unicast_destination_(all_address_bits_symbolic);_any_instant
     #[kani::proof]
     pub(crate) fn lookup_hw_addr_step() {
         let o = hw_step(true, false);
@@ -623,10 +627,12 @@ mod v_iface_neighbor {
         kani::cover!(o.a_sent && !o.on_link, "request for a gateway sent");
         kani::cover!(o.a_sent && o.stale_key, "expired entry: not used, rediscovered");
         kani::cover!(o.rate_limited && !o.a_sent, "miss inside the silent second: nothing sent");
+        kani::cover!(o.rate_limited && o.stale_key && !o.a_sent, "EXPIRED entry for the next hop while silent_until is in the future: no second request");
+        kani::cover!(o.hit && o.dst_cached_offlink, "off-link destination that is itself in the cache: the gateway's entry is used, not the destination's");
         kani::cover!(o.no_route, "no route");
     }
 
-    // @harness props=C16 cfg=KI4,KI6 tier=q to=900 mem=8 unwind=KI4:8,KI6:18 opts=nomem covers=6 funcs=InterfaceInner::dispatch_ip;InterfaceInner::lookup_hardware_addr;InterfaceInner::route;InterfaceInner::dispatch_ethernet;Packet::emit_payload;route::Routes::lookup;neighbor::Cache::lookup;neighbor::Cache::limit_rate bounds=as_lookup_hw_addr_step;_UDP_datagram_with_any_ports_and_4_payload_bytes,_source_chosen_by_get_source_address,_checksums_off,_MTU_1500
+    // @harness props=C16 cfg=KI4 tier=q to=900 mem=8 unwind=8 opts=nomem covers=8 funcs=InterfaceInner::dispatch_ip;InterfaceInner::lookup_hardware_addr;InterfaceInner::route;InterfaceInner::dispatch_ethernet;Packet::emit_payload;route::Routes::lookup;neighbor::Cache::lookup;neighbor::Cache::limit_rate bounds=as_lookup_hw_addr_step;_UDP_datagram_with_any_ports_and_4_payload_bytes,_source_chosen_by_get_source_address,_checksums_off,_MTU_1500
     #[kani::proof]
     pub(crate) fn dispatch_ip_neighbor_step() {
         let o = hw_step(false, true);
@@ -635,6 +641,23 @@ mod v_iface_neighbor {
         kani::cover!(o.b_sent && !o.on_link, "request for a gateway sent instead of the datagram");
         kani::cover!(o.b_sent && o.stale_key, "expired entry: not used, rediscovered");
         kani::cover!(o.b_pending && !o.b_sent, "miss inside the silent second: nothing sent at all");
+        kani::cover!(o.b_pending && !o.b_sent && o.stale_key, "EXPIRED entry for the next hop while silent_until is in the future: nothing sent");
+        kani::cover!(o.hit && o.dst_cached_offlink, "off-link destination that is itself in the cache: sent to the gateway's hardware address");
+        kani::cover!(o.no_route, "no route");
+    }
+
+    // IPv6: next-hop selection and resolution only (`route`, `has_neighbor`).  The steps themselves (lookup_hw_addr_step,
+    // dispatch_ip_neighbor_step) do not fit under KI6: the solicitation built in lookup_hardware_addr and the datagram
+    // travel by value through dispatch_ip, CBMC loses the `IpPayload` discriminant and encodes every emitter (hop-by-hop
+    // options, MLD, TCP options) with all loops unrolled to the 18 that 16-byte address comparisons need: 3 M program
+    // steps, more than 16 GB (measured; making `now` / `silent_until` constants does not prune the path either).
+    // @harness props=C16 cfg=KI6 tier=q to=900 mem=12 unwind=18 opts=nomem covers=4 funcs=InterfaceInner::route;InterfaceInner::has_neighbor;InterfaceInner::in_same_network;route::Routes::lookup;neighbor::Cache::lookup bounds=Ethernet_interface_fe80::1/64_+_2001:db8::1/64;_neighbor_cache_full:_3_entries_with_fixed_keys_(fe80::2,_2001:db8::77,_2001:db9::1),_any_hardware_addresses,_any_expiries,_any_silent_until;_2_routes_(/0_and_/48,_any_network,_any_unicast_gateway,_any_expiry);_any_unicast_IPv6_destination;_any_instant;_lookup_hardware_addr_/_dispatch_ip_themselves_(solicitation_frame,_its_rate_limit,_frame_destination)_NOT_covered_for_IPv6
+    #[kani::proof]
+    pub(crate) fn next_hop_resolution_v6() {
+        let o = hw_step(false, false);
+        kani::cover!(o.resolved && !o.on_link && o.two_live, "resolved through a gateway chosen among two live routes");
+        kani::cover!(o.resolved && o.on_link && o.others_expired, "on-link neighbor resolved while the other entries are expired");
+        kani::cover!(!o.resolved && o.stale_key, "next hop known but expired: not resolved");
         kani::cover!(o.no_route, "no route");
     }
 
@@ -805,14 +828,17 @@ mod v_iface_neighbor {
     }
 
     /// one NDISC message against a cache holding n entries (n concrete, see file header)
-    fn ndisc_step(n: usize) {
+    fn ndisc_step(n: usize, known_sender: bool) {
         #[cfg(all(feature = "proto-ipv6", not(feature = "proto-ipv4")))]
         {
             eth_env!(dev, iface, now, true);
             let (c, m) = cache_with(n, now);
             let mut inner = iface.inner;
             inner.neighbor_cache = c;
-            let src = match any_unicast() {
+            // known_sender: the sender is the (live or expired) first cache key, a constant - the fill then replaces in
+            // place.  An arbitrary sender makes the fill append at an offset CBMC treats as symbolic inside the KI6
+            // InterfaceInner (SLAAC + multicast state): 10 M variables, more than 16 GB (measured).
+            let src = match if known_sender { key(0) } else { any_unicast() } {
                 IpAddress::Ipv6(a) => a,
             };
             let dst = match any_addr() {
@@ -881,78 +907,22 @@ mod v_iface_neighbor {
             }
             kani::cover!(kind == 0 && fills && known_live && override_flag, "override advertisement replaces a live entry");
             kani::cover!(kind == 0 && !fills && ll_ok && target_unicast, "advertisement without override for a live entry ignored");
-            kani::cover!(kind == 1 && fills && m_key_index(&m, &srca).is_none(), "solicitation from a new neighbor learned (appended, or evicting the oldest of a full cache)");
+            kani::cover!(kind == 1 && fills && !known_live, "solicitation refreshes an expired entry with a new hardware address");
             kani::cover!(kind <= 1 && lladdr.is_some() && !ll_ok, "multicast or mis-sized link-layer address rejected");
             kani::cover!(kind == 1 && reply.is_some(), "solicitation answered");
             kani::cover!(kind >= 2 && lladdr.is_some(), "router solicitation / advertisement / redirect: cache untouched");
         }
     }
 
-    // @harness props=C16 cfg=KI6 tier=q to=900 mem=16 unwind=18 opts=nomem covers=6 funcs=InterfaceInner::process_ndisc;RawHardwareAddress::parse;neighbor::Cache::fill;neighbor::Cache::lookup;InterfaceInner::has_solicited_node bounds=Ethernet_interface_fe80::1/64_+_2001:db8::1/64,_SLAAC_off;_symbolic_NdiscRepr_of_every_kind_(NA,_NS,_RS,_RA,_Redirect)_with_any_flags,_any_target,_link-layer_option_absent_or_of_length_0/2/5/6_with_any_bytes;_any_unicast_IPv6_source_(process_ipv6_drops_others),_any_destination;_hop_limit_255_(gate_in_process_icmpv6:_ndisc_hop_limit_gate);_neighbor_cache_of_3_slots_holding_2_entries_(fixed_keys_fe80::2,_2001:db8::77):_sender_known_or_new,_room_left_with_any_hardware_addresses,_expiries,_silent_until
+    // @harness props=C16 cfg=KI6 tier=q to=900 mem=8 unwind=18 opts=nomem covers=6 funcs=InterfaceInner::process_ndisc;RawHardwareAddress::parse;neighbor::Cache::fill;neighbor::Cache::lookup;InterfaceInner::has_solicited_node bounds=Ethernet_interface_fe80::1/64_+_2001:db8::1/64,_SLAAC_off;_symbolic_NdiscRepr_of_every_kind_(NA,_NS,_RS,_RA,_Redirect)_with_any_flags,_any_target,_link-layer_option_absent_or_of_length_0/2/5/6_with_any_bytes;_sender_=_fe80::2,_the_first_cache_key_(its_entry_live_or_expired);_any_destination;_hop_limit_255_(the_gate_in_process_icmpv6_is_not_covered);_neighbor_cache_holding_2_entries_(fixed_keys)_with_any_hardware_addresses,_expiries,_silent_until;_a_sender_not_yet_in_the_cache_is_NOT_covered_for_IPv6_(out_of_memory)
     #[kani::proof]
     pub(crate) fn cache_fill_only_validated_ndisc() {
-        ndisc_step(2);
+        ndisc_step(2, true);
     }
 
-    // @harness props=C16 cfg=KI6 tier=q to=900 mem=16 unwind=18 opts=nomem covers=6 funcs=InterfaceInner::process_ndisc;RawHardwareAddress::parse;neighbor::Cache::fill;neighbor::Cache::lookup;InterfaceInner::has_solicited_node bounds=Ethernet_interface_fe80::1/64_+_2001:db8::1/64,_SLAAC_off;_symbolic_NdiscRepr_of_every_kind_(NA,_NS,_RS,_RA,_Redirect)_with_any_flags,_any_target,_link-layer_option_absent_or_of_length_0/2/5/6_with_any_bytes;_any_unicast_IPv6_source_(process_ipv6_drops_others),_any_destination;_hop_limit_255_(gate_in_process_icmpv6:_ndisc_hop_limit_gate);_neighbor_cache_of_3_slots_holding_3_entries_(fixed_keys_fe80::2,_2001:db8::77,_2001:db9::1):_full,_a_new_sender_evicts_the_oldest_with_any_hardware_addresses,_expiries,_silent_until
-    #[kani::proof]
-    pub(crate) fn cache_fill_only_validated_ndisc_full() {
-        ndisc_step(3);
-    }
-
-    // The off-link gate: NDISC is honoured only with hop limit 255 (RFC 4861 7.1.1/7.1.2), enforced in process_icmpv6.
-    // Byte template (RFC 4861 4.4): neighbor advertisement with a target link-layer address option.
-    // @harness props=C16 cfg=KI6 tier=q to=900 mem=16 unwind=18 opts=nomem covers=2 funcs=InterfaceInner::process_icmpv6;Icmpv6Repr::parse;NdiscRepr::parse;InterfaceInner::process_ndisc bounds=32-byte_neighbor_advertisement_template_(flags,_target,_option_type_1_or_2,_link-layer_address_symbolic);_any_hop_limit;_any_unicast_source;_destination_fe80::1;_empty_neighbor_cache;_no_sockets
-    #[kani::proof]
-    pub(crate) fn ndisc_hop_limit_gate() {
-        #[cfg(all(feature = "proto-ipv6", not(feature = "proto-ipv4")))]
-        {
-            eth_env!(dev, iface, now, true);
-            let mut inner = iface.inner;
-            let src = match any_unicast() {
-                IpAddress::Ipv6(a) => a,
-            };
-            let hop: u8 = kani::any();
-            let ip_repr = Ipv6Repr { src_addr: src, dst_addr: OWN6_LL, next_header: IpProtocol::Icmpv6, payload_len: 32, hop_limit: hop };
-            let mut b = [0u8; 32];
-            b[0] = 136;
-            b[4] = kani::any::<u8>() & 0xe0;
-            // (written element by element: a memcpy into the template makes its constant bytes - option type and
-            // length - non-constant for CBMC, and the option loop of NdiscRepr::parse is then unrolled 17 times)
-            let tgt: [u8; 16] = kani::any();
-            let mut i = 0;
-            while i < 16 {
-                b[8 + i] = tgt[i];
-                i += 1;
-            }
-            let opt_is_target: bool = kani::any();
-            b[24] = if opt_is_target { 2 } else { 1 };
-            b[25] = 1;
-            let mac: [u8; 6] = kani::any();
-            b[26] = mac[0];
-            b[27] = mac[1];
-            b[28] = mac[2];
-            b[29] = mac[3];
-            b[30] = mac[4];
-            b[31] = mac[5];
-            let mut storage: [SocketStorage; 1] = [SocketStorage::EMPTY];
-            let mut sockets = SocketSet::new(&mut storage[..]);
-            let reply = inner.process_icmpv6(&mut sockets, ip_repr, &b[..]);
-            let srca = IpAddress::Ipv6(src);
-            let learned = inner.neighbor_cache.lookup(&srca, now).found();
-            let valid = opt_is_target && mac[0] & 1 == 0 && tgt[0] != 0xff && tgt != [0u8; 16];
-            if hop != 255 {
-                assert!(!learned, "prop:c16_ndisc_from_off_link_ignored");
-            }
-            assert!(learned == (hop == 255 && valid), "prop:c16_validated_ndisc_sender_learned");
-            if learned {
-                assert!(inner.neighbor_cache.lookup(&srca, now) == NeighborAnswer::Found(HardwareAddress::Ethernet(EthernetAddress(mac))), "prop:c16_validated_ndisc_sender_learned");
-            }
-            assert!(reply.is_none(), "prop:c16_advertisement_never_answered");
-            kani::cover!(learned, "advertisement with hop limit 255 learned");
-            kani::cover!(!learned && valid && hop == 254, "forwarded advertisement ignored");
-        }
-    }
+    // Not covered: the hop-limit-255 gate of process_icmpv6 (RFC 4861 7.1.1/7.1.2), which is what keeps off-link
+    // senders out.  A byte-template harness through process_icmpv6 (`ndisc_hop_limit_gate`) was cut: under KI6 the
+    // option loop of NdiscRepr::parse is unrolled 17 times with every option parser (2.6 M program steps, > 16 GB).
 
     // ------------------------------------------------------------------ 5. socket data survives an unresolved neighbor
     // The real `Interface::socket_egress` on a SocketSet holding one UDP socket.
